@@ -49,6 +49,9 @@ class C19(Property):
         ("antismash/outputs/html/js.py", "convert_regions"),
         ("antismash/outputs/html/js.py", "convert_cds_features"),
         ("antismash/common/secmet/features/region/structures.py", "Region.get_unique_protoclusters"),
+        ("antismash/common/secmet/features/region/structures.py", "Region.candidate_clusters"),
+        ("antismash/common/secmet/features/region/structures.py", "Region.subregions"),
+        ("antismash/common/secmet/features/candidate_cluster/structures.py", "CandidateCluster.protoclusters"),
         ("antismash/common/secmet/features/feature.py", "Feature.start"),
         ("antismash/common/secmet/features/feature.py", "Feature.end"),
         ("antismash/common/secmet/features/feature.py", "Feature.is_contained_by"),
@@ -64,7 +67,8 @@ class C19(Property):
             "whole record) filled with 0-6 protoclusters (extent + core on a coarse grid with +-1 jitter, symmetric and "
             "asymmetric neighbourhoods, cores before/after/across the origin), 0-6 candidate clusters over random subsets "
             "(all four kinds), 0-3 subregions and 0-6 genes incl. origin-spanning forward/reverse and multi-exon genes; "
-            "regions built directly (`Region(candidates, subregions)`) or by `create_candidate_clusters` + "
+            "twins: two different protoclusters with the same extent and product (other core and/or a "
+            "sideloaded annotation); regions built directly (`Region(candidates, subregions)`) or by `create_candidate_clusters` + "
             "`create_regions`; plus `pack` alone on unsorted area lists; thorough/deep adds the small scope L=24, protocluster "
             "extents/cores on a 4-grid of the ring (every single and every pair exhaustively, triples sampled), each with "
             "and without an origin-spanning subregion and with origin-spanning genes.  non-trivial = the region extends over the origin "
@@ -73,9 +77,11 @@ class C19(Property):
     TRUSTED = [
         "area strings irrelevant to the geometry (prefix, category, tool, css) are not modelled or observed",
         "`get_description` is stubbed in the harness (HTML rendering); dna/translation fields are not observed",
-        "the order of `region.get_unique_protoclusters()`, `region.candidate_clusters`, `region.subregions` and "
-        "`region.cds_children` is taken as delivered by the real objects (the theorems hold for every order); for "
-        "origin-spanning regions the delivered protocluster order is checked against the modelled sort key",
+        "the order of `region.candidate_clusters`, `region.subregions` and `region.cds_children` is taken as delivered "
+        "by the real objects (the theorems hold for every order); `get_unique_protoclusters` is modelled: the delivered "
+        "objects are compared by identity with the members of the region's candidate clusters and with the model, the "
+        "delivered order must be sorted by the modelled key (the order of equal-key protoclusters is CPython's set order "
+        "and is taken as delivered)",
         "region / candidate locations are computed by the real `connect_locations` (C04/C06) and fed to the model",
         "Biopython location classes; Python `id()` uniqueness for group ids (modelled as a counter, compared after "
         "renaming by first occurrence)",
@@ -139,6 +145,20 @@ class C19(Property):
             if rng.random() < 0.04:     # malformed on purpose: core not inside the extent
                 core = (max(ext[0] - 1, 0), core[1]) if rng.random() < 0.5 else (core[0], min(core[1] + 1, wlen))
             protos.append({"loc": place(ext), "core": place(core), "product": f"p{i}"})
+        # two *different* protoclusters with the same extent and product: a detected cluster and a sideloaded
+        # annotation of it, or the same product found twice with different cores
+        if protos and rng.random() < 0.3:
+            for _ in range(rng.choice([1, 1, 2])):
+                src = rng.choice(protos)
+                twin = dict(src)
+                r2 = rng.random()
+                if r2 < 0.6:
+                    ext = self._offsets_of(src["loc"], w0, L)
+                    core = self.rand_interval(rng, ext[0], ext[1], max(step // 2, 1))
+                    twin["core"] = place(core)
+                if r2 > 0.4:
+                    twin["sideloaded"] = True
+                protos.append(twin)
         cands = []
         if protos:
             idxs = list(range(len(protos)))
@@ -196,6 +216,14 @@ class C19(Property):
         mode = "pipeline" if (protos and rng.random() < 0.15) else "direct"
         return {"kind": "regions", "L": L, "circular": circular, "protos": protos, "cands": cands,
                 "subs": subs, "genes": genes, "mode": mode}
+
+    @staticmethod
+    def _offsets_of(loc: Dict[str, Any], w0: int, L: int) -> Tuple[int, int]:
+        """window offsets (a, b) of a location produced by `place`"""
+        start = loc["parts"][0][0]
+        length = sum(p[1] - p[0] for p in loc["parts"])
+        a = (start - w0) % L
+        return a, a + length
 
     def rand_pack(self, rng: random.Random) -> Dict[str, Any]:
         L = rng.choice([24, 60, 100])
@@ -296,6 +324,7 @@ class C19(Property):
             return self.run_pack(case)
         from antismash.common.secmet.features import CandidateCluster, Protocluster, Region, SubRegion
         from antismash.common.secmet.features.candidate_cluster.structures import CandidateClusterKind
+        from antismash.common.secmet.features.protocluster import SideloadedProtocluster
         from antismash.common.secmet.test.helpers import DummyCDS, DummyRecord
         from antismash.outputs.html import js
         js.get_description = lambda *args, **kwargs: ""     # renders HTML, irrelevant here
@@ -307,8 +336,14 @@ class C19(Property):
             for i, g in enumerate(case["genes"]):
                 rec.add_cds_feature(DummyCDS(location=common.make_location(g["loc"]), locus_tag=f"g{i}",
                                              translation="M"))
-            protos = [Protocluster(common.make_location(p["core"]), common.make_location(p["loc"]), "tool",
-                                   p["product"], 10, 10, "rule") for p in case["protos"]]
+            protos = []
+            for p in case["protos"]:
+                if p.get("sideloaded"):
+                    protos.append(SideloadedProtocluster(common.make_location(p["core"]), common.make_location(p["loc"]),
+                                                         "external", p["product"]))
+                else:
+                    protos.append(Protocluster(common.make_location(p["core"]), common.make_location(p["loc"]), "tool",
+                                               p["product"], 10, 10, "rule"))
             for p in protos:
                 rec.add_protocluster(p)
             subs = [SubRegion(common.make_location(s["loc"]), "tool", label=s["label"]) for s in case["subs"]]
@@ -329,12 +364,24 @@ class C19(Property):
             return {"rejected": err_kind(exc), "msg": str(exc)[:160]}
         regions = []
         for region in rec.get_regions():
+            # the region's protoclusters, independently of get_unique_protoclusters: the members of its
+            # candidate clusters, told apart by object identity
+            idents: Dict[int, int] = {}
+            cands_json = []
+            for cand in region.candidate_clusters:
+                cj = self._feat_json(cand, "cand")
+                cj["members"] = [{"id": idents.setdefault(id(p), len(idents)), "feat": self._feat_json(p, "proto")}
+                                 for p in cand.protoclusters]
+                cands_json.append(cj)
+            delivered = []
+            for k, p in enumerate(region.get_unique_protoclusters()):
+                delivered.append({"id": idents.get(id(p), 100000 + k), "feat": self._feat_json(p, "proto")})
             regions.append({
                 "L": L, "circular": case["circular"],
                 "region": common.location_json(region.location),
                 "subs": [self._feat_json(s, "sub") for s in region.subregions],
-                "cands": [self._feat_json(c, "cand") for c in region.candidate_clusters],
-                "protos": [self._feat_json(p, "proto") for p in region.get_unique_protoclusters()],
+                "cands": cands_json,
+                "delivered": delivered,
                 "genes": [common.location_json(cds.location) for cds in region.cds_children],
                 "names": [cds.get_name() for cds in region.cds_children],
             })
@@ -416,6 +463,11 @@ class C19(Property):
             if (model["start"], model["end"]) != (impl["start"], impl["end"]):
                 corr = False
                 details.append(f"range: model {model['start']}..{model['end']} vs implementation {impl['start']}..{impl['end']}")
+            got = [p["id"] for p in info["delivered"]]
+            if sorted(got) != sorted(d["unique"]):
+                corr = False
+                details.append(f"get_unique_protoclusters: model delivers objects {sorted(d['unique'])}, "
+                               f"implementation {sorted(got)}")
             if not spec["protos_sorted"]:
                 corr = False
                 details.append("get_unique_protoclusters order is not sorted by the modelled key")
@@ -423,6 +475,11 @@ class C19(Property):
             in_scope = in_scope and sa and sg
             if sa:
                 bad = [k for k, v in spec["areas"].items() if not v] + ([] if spec["announced"] else ["announced"])
+                if not spec["delivered_ok"]:
+                    bad.append("unique_protoclusters")
+                    members = sorted({m["id"] for cj in info["cands"] for m in cj["members"]})
+                    details.insert(0, f"the region's candidate clusters hold protocluster objects {members}, "
+                                      f"get_unique_protoclusters delivered {got}")
                 if bad:
                     spec_ok = False
                     details.insert(0, f"areas violate {bad}: region {info['region']['parts']} L={info['L']} "
@@ -446,6 +503,9 @@ class C19(Property):
                 tags.append("gene-crossing" + ("-split" if not inf["region_crosses"] else "-shift"))
             if shared_row:
                 tags.append("shared-row")
+            if inf["n_tied"]:
+                tags.append("tied-protoclusters")
+                nontrivial = True
             tags.append("scope-areas" if sa else "out-of-scope-areas")
             tags.append("scope-genes" if sg else "out-of-scope-genes")
         return Judgement(corr, spec_ok, in_scope=in_scope, nontrivial=nontrivial, tags=tuple(sorted(set(tags))),
